@@ -232,17 +232,23 @@ func (x *Session) deliver(it recvItem) (bool, *Hang) {
 	}
 	t := time.NewTimer(Watchdog)
 	defer t.Stop()
-	select {
-	case x.in <- it:
-		return true, nil
-	case <-x.ctx.Done():
-		return false, nil
-	case <-x.blockedCh:
-		// the server is blocked by flow control (BlockSends): it will not read
-		// this message before the stream is cancelled
-		return false, nil
-	case <-t.C:
-		return false, x.hang("deliver request")
+	ext := 0
+	for {
+		select {
+		case x.in <- it:
+			return true, nil
+		case <-x.ctx.Done():
+			return false, nil
+		case <-x.blockedCh:
+			// the server is blocked by flow control (BlockSends): it will not read
+			// this message before the stream is cancelled
+			return false, nil
+		case <-t.C:
+			if h := x.hangOrBusy("deliver request", &ext); h != nil {
+				return false, h
+			}
+			t.Reset(Watchdog)
+		}
 	}
 }
 
@@ -250,6 +256,60 @@ func (x *Session) hang(what string) *Hang {
 	d := Dump()
 	gs := Parse(d)
 	return &Hang{What: what, Blocked: BlockedInGribigo(gs, x.handlerGID.Load(), CurGID()), Dump: d}
+}
+
+// MaxExtensions bounds how often an expired watchdog is re-armed because the goroutines
+// it waits for are still making progress (a slow machine, a very large cascade).
+var MaxExtensions = 45
+
+// hangOrBusy is called when a watchdog expires. A wait is a hang only when nothing it waits
+// for can make progress: while a goroutine of the watched call is running or runnable the
+// watchdog is re-armed (nil is returned), at most MaxExtensions times.
+func (x *Session) hangOrBusy(what string, ext *int) *Hang {
+	d := Dump()
+	gs := Parse(d)
+	if *ext < MaxExtensions && Busy(gs, x.handlerGID.Load(), CurGID()) {
+		*ext++
+		return nil
+	}
+	return &Hang{What: what, Blocked: BlockedInGribigo(gs, x.handlerGID.Load(), CurGID()), Dump: d}
+}
+
+// dog is the watchdog of one condition wait on a session.
+type dog struct {
+	x        *Session
+	what     string
+	deadline time.Time
+	timer    *time.Timer
+	ext      int
+}
+
+func (x *Session) newDog(what string) *dog {
+	d := &dog{x: x, what: what, deadline: time.Now().Add(Watchdog)}
+	d.timer = time.AfterFunc(Watchdog, func() {
+		x.mu.Lock()
+		x.cond.Broadcast()
+		x.mu.Unlock()
+	})
+	return d
+}
+
+func (d *dog) stop() { d.timer.Stop() }
+
+// check is called with x.mu held, before every cond.Wait. It returns a *Hang when the
+// watchdog expired and nothing the wait depends on is making progress.
+func (d *dog) check() *Hang {
+	if time.Now().Before(d.deadline) {
+		return nil
+	}
+	d.x.mu.Unlock()
+	h := d.x.hangOrBusy(d.what, &d.ext)
+	d.x.mu.Lock()
+	if h == nil {
+		d.deadline = time.Now().Add(Watchdog)
+		d.timer.Reset(Watchdog)
+	}
+	return h
 }
 
 // Send delivers a request (the client "sent a message").
@@ -284,20 +344,12 @@ func (x *Session) BlockSends(k int) {
 
 // WaitBlocked waits until a Send is blocked by BlockSends, or the RPC ended.
 func (x *Session) WaitBlocked() (blocked bool, hang *Hang) {
-	timer := time.AfterFunc(Watchdog, func() {
-		x.mu.Lock()
-		x.cond.Broadcast()
-		x.mu.Unlock()
-	})
-	defer timer.Stop()
-	deadline := time.Now().Add(Watchdog)
+	dg := x.newDog("wait for a blocked Send")
+	defer dg.stop()
 	x.mu.Lock()
 	defer x.mu.Unlock()
 	for !x.blocked && !x.ended {
-		if time.Now().After(deadline) {
-			x.mu.Unlock()
-			h := x.hang("wait for a blocked Send")
-			x.mu.Lock()
+		if h := dg.check(); h != nil {
 			return false, h
 		}
 		x.cond.Wait()
@@ -338,13 +390,8 @@ func (x *Session) Barrier() (resps []*spb.ModifyResponse, ended bool, hang *Hang
 	if !ok {
 		return x.WaitEnd()
 	}
-	timer := time.AfterFunc(Watchdog, func() {
-		x.mu.Lock()
-		x.cond.Broadcast()
-		x.mu.Unlock()
-	})
-	defer timer.Stop()
-	deadline := time.Now().Add(Watchdog)
+	dg := x.newDog("barrier")
+	defer dg.stop()
 	x.mu.Lock()
 	defer x.mu.Unlock()
 	for {
@@ -361,10 +408,7 @@ func (x *Session) Barrier() (resps []*spb.ModifyResponse, ended bool, hang *Hang
 		if x.ended {
 			return x.take(), true, nil
 		}
-		if time.Now().After(deadline) {
-			x.mu.Unlock()
-			h := x.hang("barrier")
-			x.mu.Lock()
+		if h := dg.check(); h != nil {
 			return x.take(), false, h
 		}
 		x.cond.Wait()
@@ -375,18 +419,13 @@ func (x *Session) Barrier() (resps []*spb.ModifyResponse, ended bool, hang *Hang
 // goroutines to reach a parked state (or exit), so that "the state after the
 // RPC ended" can be observed. It returns the unconsumed responses.
 func (x *Session) WaitEnd() (resps []*spb.ModifyResponse, ended bool, hang *Hang) {
-	timer := time.AfterFunc(Watchdog, func() {
-		x.mu.Lock()
-		x.cond.Broadcast()
-		x.mu.Unlock()
-	})
-	defer timer.Stop()
-	deadline := time.Now().Add(Watchdog)
+	dg := x.newDog("wait for RPC end")
+	defer dg.stop()
 	x.mu.Lock()
 	for !x.ended {
-		if time.Now().After(deadline) {
+		if h := dg.check(); h != nil {
 			x.mu.Unlock()
-			return nil, false, x.hang("wait for RPC end")
+			return nil, false, h
 		}
 		x.cond.Wait()
 	}
@@ -404,6 +443,7 @@ func (x *Session) WaitEnd() (resps []*spb.ModifyResponse, ended bool, hang *Hang
 // receive: they are leaked, as with real gRPC).
 func (x *Session) quiesceEnded() *Hang {
 	deadline := time.Now().Add(Watchdog)
+	ext := 0
 	gid := x.handlerGID.Load()
 	for {
 		gs := Parse(Dump())
@@ -425,7 +465,12 @@ func (x *Session) quiesceEnded() *Hang {
 			return nil
 		}
 		if time.Now().After(deadline) {
-			return x.hang("quiesce after RPC end")
+			// still running goroutines are exactly what is being waited for: only goroutines
+			// parked on something other than a channel send keep this from finishing
+			if h := x.hangOrBusy("quiesce after RPC end", &ext); h != nil {
+				return h
+			}
+			deadline = time.Now().Add(Watchdog)
 		}
 		runtime.Gosched()
 		time.Sleep(50 * time.Microsecond)
@@ -490,12 +535,19 @@ func Watch(what string, f func()) *Hang {
 	}()
 	t := time.NewTimer(Watchdog)
 	defer t.Stop()
-	select {
-	case <-done:
-		return nil
-	case <-t.C:
-		d := Dump()
-		return &Hang{What: what, Blocked: BlockedInGribigo(Parse(d), gid.Load()), Dump: d}
+	for ext := 0; ; ext++ {
+		select {
+		case <-done:
+			return nil
+		case <-t.C:
+			d := Dump()
+			gs := Parse(d)
+			if ext < MaxExtensions && Busy(gs, gid.Load()) {
+				t.Reset(Watchdog)
+				continue
+			}
+			return &Hang{What: what, Blocked: BlockedInGribigo(gs, gid.Load()), Dump: d}
+		}
 	}
 }
 
@@ -550,18 +602,13 @@ func Election(hi, lo uint64) *spb.ModifyRequest {
 // no barrier is possible: every message yields exactly one response or ends
 // the RPC).
 func (x *Session) WaitOneOrEnd() (resps []*spb.ModifyResponse, ended bool, hang *Hang) {
-	timer := time.AfterFunc(Watchdog, func() {
-		x.mu.Lock()
-		x.cond.Broadcast()
-		x.mu.Unlock()
-	})
-	defer timer.Stop()
-	deadline := time.Now().Add(Watchdog)
+	dg := x.newDog("wait for a response or RPC end")
+	defer dg.stop()
 	x.mu.Lock()
 	for !x.ended && len(x.out) == x.read {
-		if time.Now().After(deadline) {
+		if h := dg.check(); h != nil {
 			x.mu.Unlock()
-			return nil, false, x.hang("wait for a response or RPC end")
+			return nil, false, h
 		}
 		x.cond.Wait()
 	}
